@@ -488,7 +488,7 @@ class ProgramGen:
             if not ctx.in_module:
                 decls += [self.st_format]
         if ctx.in_module:
-            decls += [self.st_access, self.st_access, self.st_protected]
+            decls += [self.st_access, self.st_access, self.st_protected, self.st_bind]
         if ctx.ukind in ("subroutine", "function"):
             decls += [self.st_intent, self.st_optional, self.st_value]
             if not ctx.internal and not ctx.in_interface:
@@ -793,10 +793,21 @@ class ProgramGen:
             t += " result(%s)" % self.env.scalar()
         self.S("entry", t)
 
+    def st_bind(self, ctx):
+        """BIND statement (R522): the '::' is optional, entities are variables or /common-block/ names"""
+        r = self.r
+        spec = r.choice(["bind(c)", "bind(c)", "bind(c, name = 'c_%s')" % self.env.const().lower(), "BIND(C)"])
+        ents = [r.choice([self.env.scalar(), "/%s/" % self.env.const()]) for _ in range(1 if "name" in spec else r.randint(1, 2))]
+        sep = " :: " if self.p(0.6) else "{+ ::+} "
+        self.S("bind", spec + sep + ", ".join(ents))
+
     def st_f08_decl(self, ctx):
         r = self.r
         c = r.random()
-        if c < 0.4:
+        if c < 0.15:
+            self.S("codimension_decl", "real, allocatable, codimension[%s] :: %s" % (r.choice([":", ":, :"]), self.env.scalar()),
+                   flags={"f2008"})
+        elif c < 0.4:
             self.S("codimension_decl", "integer, codimension[%s] :: %s" % (r.choice(["*", "2, *", "0:*"]), self.env.scalar()),
                    flags={"f2008"})
         elif c < 0.7:
@@ -822,8 +833,13 @@ class ProgramGen:
             if self.p(0.25):
                 x = x.upper()
             return x
-        if c < 0.85:
+        if c < 0.82:
             return r.choice(ctl)
+        if c < 0.87:
+            # scale factor directly in front of a data edit descriptor: the comma is optional (C1002)
+            return "%sp{+,+} %s" % (r.choice(["1", "2", "-1"]), r.choice(["e12.4", "f8.3", "d10.2", "g10.3", "2f6.1"]))
+        if c < 0.9:
+            return r.choice(["3Habc", "5HHello", "1Hx", "4H1234"])
         return r.choice(["'text'", '"t2"', "'it''s'", "'a, b'", "'(x)'"])
 
     def fmt_list(self, d=2):
@@ -1309,8 +1325,15 @@ class ProgramGen:
             t = "%s => %s" % (self.env.scalar(), self.var())
         elif c < 0.7:
             t = "%s => null()" % self.env.scalar()
-        elif c < 0.85:
+        elif c < 0.8:
             t = "%s(1:2, 1:3) => %s(1:6)" % (self.env.array(), self.env.array())
+        elif c < 0.86:
+            # bounds-spec-list: lower bounds only
+            t = "%s(%s) => %s" % (self.env.array(), r.choice(["0:", "lo:", "0:, 0:", "-1:, lo:"]).replace("lo", self.env.scalar()),
+                                  r.choice([self.env.array(), "%s%%%s" % (self.env.structvar(), self.env.compname())]))
+        elif c < 0.9:
+            # procedure-pointer component on the left
+            t = "%s%%%s => %s" % (self.env.structvar(), self.env.compname(), r.choice([self.env.procname(), "null()"]))
         else:
             t = "%s%%%s => %s" % (self.env.structvar(), self.env.compname(), self.eg.call(1))
         self.S("ptr_assign", t, flags={"simple"})
